@@ -126,3 +126,16 @@ case("C08", "product-xal-swapped", "VIOLATION", [(PR, "Xal = [len(X), len(args[0
 case("C08", "product-order-swapped", "VIOLATION", [(PR, "itertools.product(X, *args)", "itertools.product(*args, X)")], None, "product.apply_product")
 case("C08", "product-no-flush", "VIOLATION", [(PR, "\telse:\n\t\tif len(X_) > 0:\n\t\t\ty_ = _apply(func, model, X_, args=args_, batch_size=batch_size, \n\t\t\t\tdevice=device, verbose=verbose,\n\t\t\t\tadditional_func_kwargs=additional_func_kwargs, **kwargs)\n\t\t\ty.append(y_)\n", "")], "R-FLUSH", "product.apply_product")
 case("C08", "product-reset-only-x", "VIOLATION", [(PR, "\t\t\tX_, args_ = [], [[] for _ in args]\n\telse:\n\t\tif len(X_) > 0:\n\t\t\ty_ = _apply(func, model, X_, args=args_, batch_size=batch_size, \n\t\t\t\tdevice=device, verbose=verbose, \n", "\t\t\tX_ = []\n\telse:\n\t\tif len(X_) > 0:\n\t\t\ty_ = _apply(func, model, X_, args=args_, batch_size=batch_size, \n\t\t\t\tdevice=device, verbose=verbose, \n")], "R-FLUSH", "product.apply_pairwise")
+
+# ------------------------------------------------------------------ C18
+AN = "tangermeme/annotate.py"
+prefix("C18", "D14-prefix-spacing-guard", AN, "082fd84", "R-GUARD", "annotate.pairwise_annotations_spacing")
+case("C18", "spacing-guard-le", "VIOLATION", [(AN, "\t\t\t\t\td = start1 - end0\n\t\t\t\t\tif d < 0 or d >= max_distance:", "\t\t\t\t\td = start1 - end0\n\t\t\t\t\tif d < 0 or d > max_distance:")], "R-GUARD")
+case("C18", "spacing-guard-noneg-else", "VIOLATION", [(AN, "\t\t\t\t\td = start0 - end1\n\t\t\t\t\tif d < 0 or d >= max_distance:", "\t\t\t\t\td = start0 - end1\n\t\t\t\t\tif d >= max_distance:")], "R-GUARD")
+case("C18", "spacing-wrong-distance", "VIOLATION", [(AN, "d = start1 - end0", "d = start1 - start0")], "R-SIB")
+case("C18", "spacing-else-not-mirrored", "VIOLATION", [(AN, "\t\t\t\t\ty[idx1, idx0, d] += 1\n\t\t\t\t\tif symmetric and idx0 != idx1:\n\t\t\t\t\t\ty[idx0, idx1, d] += 1 ", "\t\t\t\t\ty[idx0, idx1, d] += 1\n\t\t\t\t\tif symmetric and idx0 != idx1:\n\t\t\t\t\t\ty[idx1, idx0, d] += 1 ")], "R-SIB")
+case("C18", "spacing-guard-equiv", "HOLDS", [(AN, "\t\t\t\t\td = start1 - end0\n\t\t\t\t\tif d < 0 or d >= max_distance:", "\t\t\t\t\td = start1 - end0\n\t\t\t\t\tif not (0 <= d < max_distance):"), (AN, "\t\t\t\t\td = start0 - end1\n\t\t\t\t\tif d < 0 or d >= max_distance:", "\t\t\t\t\td = start0 - end1\n\t\t\t\t\tif not (0 <= d < max_distance):")])
+case("C18", "pairs-inner-from-i", "VIOLATION", [(AN, "\t\t\tfor j, idx1 in enumerate(annotations[i+1:]):\n\t\t\t\ty[idx0, idx1] += 1", "\t\t\tfor j, idx1 in enumerate(annotations[i:]):\n\t\t\t\ty[idx0, idx1] += 1")], "PAIRS")
+case("C18", "pairs-diagonal-doubled", "VIOLATION", [(AN, "\t\t\t\tif symmetric and idx0 != idx1:\n\t\t\t\t\ty[idx1, idx0] += 1", "\t\t\t\tif symmetric:\n\t\t\t\t\ty[idx1, idx0] += 1")], "R-SIB")
+case("C18", "count-stride-examples", "VIOLATION", [(AN, "X_idxs = X[:, 0] * n_annotations + X[:, 1]", "X_idxs = X[:, 0] * n_examples + X[:, 1]")], "R-AXES")
+case("C18", "count-dim-swapped", "VIOLATION", [(AN, "y.scatter_add_(0, X[:, 1], X_ones)", "y.scatter_add_(0, X[:, 0], X_ones)")], "R-SIB")
